@@ -168,20 +168,37 @@ def _value(e, env):
             if bool(env[t]) == neg:
                 return False
         return True
+    if isinstance(e, ast.Name) and ('$' + e.id) in env:
+        return env['$' + e.id]          # a local that holds the outcome of a test
     k = id(e)
     if k not in _TEXT:
         _TEXT[k] = (ast.unparse(e), e)
     return env[_TEXT[k][0]]
 
 
+def _bool_locals(fnode):
+    return {n.targets[0].id for n in ast.walk(fnode) if isinstance(n, ast.Assign) and len(n.targets) == 1 and
+            isinstance(n.targets[0], ast.Name) and (_logical(n.value) or isinstance(n.value, ast.Name))}
+
+
+def _all_atoms(fnode):
+    """atoms of every test, and of every truth value kept in a local (the local itself is not an atom)"""
+    atoms = []
+    bl = _bool_locals(fnode)
+    for n in ast.walk(fnode):
+        if isinstance(n, (ast.If, ast.IfExp, ast.While)):
+            _atoms(n.test, atoms)
+        elif isinstance(n, ast.Assign) and len(n.targets) == 1 and isinstance(n.targets[0], ast.Name) and n.targets[0].id in bl and \
+                _logical(n.value):
+            _atoms(n.value, atoms)
+    return [a for a in atoms if a not in bl]
+
+
 def decision_table(fnode, max_atoms=10):
     """(atoms, {assignment tuple: text of the returned / raised outcome}) of a function made of tests and returns; the function's
     locals must have been written out (through_locals) so that tests and results are expressions over the parameters"""
     import itertools
-    atoms = []
-    for n in ast.walk(fnode):
-        if isinstance(n, (ast.If, ast.IfExp, ast.While)):
-            _atoms(n.test, atoms)
+    atoms = _all_atoms(fnode)
     if len(atoms) > max_atoms:
         raise CannotAnalyse(f'decision table: {len(atoms)} atoms')
 
@@ -198,12 +215,18 @@ def decision_table(fnode, max_atoms=10):
                 raise Out(ast.unparse(s.value) if s.value is not None else 'None')
             elif isinstance(s, ast.Raise):
                 raise Out('raise ' + (ast.unparse(s.exc.func) if isinstance(s.exc, ast.Call) else ast.unparse(s.exc) if s.exc else ''))
+            elif isinstance(s, ast.Assign) and len(s.targets) == 1 and isinstance(s.targets[0], ast.Name) and s.targets[0].id in bl:
+                try:
+                    env['$' + s.targets[0].id] = bool(_value(s.value, env))
+                except KeyError:
+                    pass
             elif isinstance(s, (ast.Assign, ast.AnnAssign, ast.Pass)):
-                continue            # locals: already written out at their uses
+                continue            # other locals: already written out at their uses
             else:
                 raise CannotAnalyse(f'decision table: statement {type(s).__name__}')
         return None
     table = {}
+    bl = _bool_locals(fnode)
     for vals in itertools.product((False, True), repeat=len(atoms)):
         env = dict(zip(atoms, vals))
         try:
@@ -218,8 +241,7 @@ def same_decisions(fa, fb):
     """two functions (locals written out) take the same decision under every assignment of the union of their test atoms;
     returns (equal?, first difference text)"""
     import itertools
-    aa, _ = decision_table(fa)
-    ab, _ = decision_table(fb)
+    aa, ab = _all_atoms(fa), _all_atoms(fb)
     atoms = aa + [x for x in ab if x not in aa]
     if len(atoms) > 12:
         raise CannotAnalyse(f'decision table: {len(atoms)} atoms')
@@ -238,6 +260,12 @@ def same_decisions(fa, fb):
                     raise Out(ast.unparse(s.value).replace(' ', '') if s.value is not None else 'None')
                 elif isinstance(s, ast.Raise):
                     raise Out('raise')
+                elif isinstance(s, ast.Assign) and len(s.targets) == 1 and isinstance(s.targets[0], ast.Name) and s.targets[0].id in bl:
+                    try:
+                        env['$' + s.targets[0].id] = bool(_value(s.value, env))
+                    except KeyError:
+                        pass
+        bl = _bool_locals(fn)
         try:
             run(fn.body)
         except Out as o:
@@ -245,7 +273,7 @@ def same_decisions(fa, fb):
         return 'None'
     for vals in itertools.product((False, True), repeat=len(atoms)):
         env = dict(zip(atoms, vals))
-        x, y = outcome(fa, env), outcome(fb, env)
+        x, y = outcome(fa, dict(env)), outcome(fb, dict(env))
         if x != y:
             return False, f'with {[a for a, v in env.items() if v]} true: {x} vs {y}'
     return True, ''
